@@ -496,7 +496,50 @@ class Program:
     def family(self, fn):
         """fn plus its (nested) closures (for an inlined view: also the closures of the helpers spliced into it)"""
         roots = {fn.id} | set(getattr(fn, "inlined_from", ()))
-        return [fn] + [g for g in self.fns.values() if g.is_closure and g.root in roots and g is not fn]
+        fam = [fn] + [g for g in self.fns.values() if g.is_closure and g.root in roots and g is not fn]
+        # a closure turned into a named private function and handed over by name (`.filter(is_relevant)`): private functions of
+        # the same crate that the family mentions as a VALUE and that nobody else mentions belong to it as well
+        seen = {g.id for g in fam}
+        for g in list(fam):
+            for t in self.fn_items_in(g):
+                h = self.fns.get(t)
+                if h is None or t in seen or h.is_closure or h.crate != fn.crate or h.impl_trait or (h.vis or "") == "pub":
+                    continue
+                users = self.fn_item_users().get(t, set())
+                callers = {(c.fn.root if c.fn.is_closure else c.fn.id) for c in self.call_sites.get(t, [])}
+                if users and (users | callers) <= roots | {x.id for x in fam}:
+                    fam.append(h)
+                    seen.add(t)
+        return fam
+
+    def fn_items_in(self, g):
+        out = set()
+
+        def walk(x):
+            if isinstance(x, dict):
+                if isinstance(x.get("fn"), str):
+                    out.add(x["fn"])
+                for v in x.values():
+                    walk(v)
+            elif isinstance(x, list):
+                for y in x:
+                    walk(y)
+        for b in g.blocks:
+            walk(b["s"])
+            if b["t"][0] == "call":
+                walk(b["t"][2])
+            else:
+                walk(b["t"])
+        return out
+
+    def fn_item_users(self):
+        if getattr(self, "_fn_item_users", None) is None:
+            u = defaultdict(set)
+            for g in self.fns.values():
+                for t in self.fn_items_in(g):
+                    u[t].add(g.root if g.is_closure else g.id)
+            self._fn_item_users = u
+        return self._fn_item_users
 
     def reach_from_callees(self, fid):
         """functions reachable from the callees of fid (fid itself is in the result iff it is recursive)"""
